@@ -84,6 +84,26 @@ func (r c13Result) outcome() string {
 	return "failed " + r.DialErr
 }
 
+// c13Processable: the first thing a client can process from a server is an Initial, a Retry
+// or a Version Negotiation packet; a datagram that starts with a Handshake or 1-RTT packet
+// (the rest of a server flight whose first datagram was lost) is buffered undecryptable and
+// does not make "a genuine packet has been processed" true.
+func c13Processable(b []byte) bool {
+	if len(b) < 5 || b[0]&0x80 == 0 {
+		return false
+	}
+	v := uint32(b[1])<<24 | uint32(b[2])<<16 | uint32(b[3])<<8 | uint32(b[4])
+	typ := (b[0] & 0x30) >> 4
+	switch v {
+	case 0:
+		return true // Version Negotiation
+	case 0x6b3343cf: // QUIC v2: Initial = 1, Retry = 0
+		return typ == 1 || typ == 0
+	default: // v1: Initial = 0, Retry = 3
+		return typ == 0 || typ == 3
+	}
+}
+
 const c13Payload = "zero-rtt-payload-0123456789"
 
 func c13State(c *quic.Conn) string {
@@ -196,7 +216,7 @@ func c13Run(t *testing.T, cfg c13Config) c13Result {
 			if ev.Dir == sim.C2S && clientEP == nil {
 				clientEP = ev.From
 			}
-			if ev.Dir == sim.S2C && !ev.Injected && res.GenuineAt < 0 && (ev.Fate == sim.Deliver || ev.Fate == sim.Dup || ev.Fate == sim.Delay || ev.Fate == sim.DelayLong) {
+			if ev.Dir == sim.S2C && !ev.Injected && res.GenuineAt < 0 && c13Processable(ev.Data) && (ev.Fate == sim.Deliver || ev.Fate == sim.Dup || ev.Fate == sim.Delay || ev.Fate == sim.DelayLong) {
 				extra := time.Duration(0)
 				if ev.Fate == sim.Delay {
 					extra = 3 * sim.OneWay
